@@ -2,28 +2,99 @@ import BreezyVerif.Common
 import BreezyVerif.Model.C03
 import BreezyVerif.Driver.C03Lib
 /-
-C03 driver.  One request:
+C03 driver.  Requests:
 
   fetch <exclusion found|revpresent> <ext T|F> <find_ghosts T|F> <rev> <src revs> <src invs> <src texts> <tgt revs> <tgt invs> <tgt texts>
+      the one-batch model; reply: `E:NoSuchRevision` | `E:SourceIncomplete` |
+      `ok <missing ids sorted> <revision ids of the target afterwards> <inventory ids> <texts f.t.c sorted>`
+
+  fetchb <batch size> <stream found|revpresent|perrev> <ext> <find_ghosts> <rev> <src revs> <src invs> <src texts> <src tpar> <tgt revs> <tgt invs> <tgt texts> <tgt tpar>
+      the batched model with per-file parents; reply: the two errors, or
+      `ok <missing ids> <revs id:meta:parents;…> <invs id:f.n.t.s,…;…> <texts f.t.c,…> <tpar f.t:p.p;…>`
+      (full records of the target afterwards, first value per key, sorted)
+
+  walk <batch size> <rev> <src revs> <target revision ids a.b.c|->
+      the batched revision search alone; reply: `<missing ids sorted>`
 
 revs  = `id:meta:p.p.p` joined by `;`   (parents `-` when there are none; whole field `-` when empty)
 invs  = `id:f.n.t.s,f.n.t.s` joined by `;` (entries `-` when the inventory is empty)
 texts = `f.t.c` joined by `;`
-
-reply: `E:NoSuchRevision` | `E:SourceIncomplete` |
-       `ok <missing ids sorted> <revision ids of the target afterwards> <inventory ids> <texts f.t.c sorted>`
+tpar  = `f.t:p.p.p` joined by `;`
 -/
 namespace BreezyVerif.C03
+
+def parseTpar (s : String) : Option (TextKey × List Rev) :=
+  match s.splitOn ":" with
+  | [k, ps] =>
+    match k.splitOn "." with
+    | [f, t] => do pure ((← f.toNat?, ← t.toNat?), ← parseDots ps)
+    | _ => none
+  | _ => none
+
+def sortedKeys (l : List Nat) : List Nat := dedupSorted (l.mergeSort (fun a b => decide (a ≤ b)))
+
+def pairLe (a b : Nat × Nat) : Bool := a.1 < b.1 || (a.1 == b.1 && a.2 ≤ b.2)
+
+def dedupAdj {α : Type} [BEq α] : List α → List α
+  | [] => []
+  | [x] => [x]
+  | x :: y :: rest => if x == y then dedupAdj (y :: rest) else x :: dedupAdj (y :: rest)
+
+def sortedPairs (l : List (Nat × Nat)) : List (Nat × Nat) := dedupAdj (l.mergeSort pairLe)
+
+def dots (l : List Nat) : String := if l.isEmpty then "-" else ".".intercalate (l.map toString)
+
+def semis (l : List String) : String := if l.isEmpty then "-" else ";".intercalate l
+
+def showEntry (e : Entry) : String := s!"{e.file}.{e.name}.{e.trev}.{e.sha}"
+
+def entryLe (a b : Entry) : Bool := a.file ≤ b.file
+
+def showRevsFull (l : List (Rev × RevRec)) : String :=
+  semis ((sortedKeys (l.map (·.1))).filterMap fun k =>
+    (get l k).map fun r => s!"{k}:{r.info}:{dots r.parents}")
+
+def showInvsFull (l : List (Rev × Inv)) : String :=
+  semis ((sortedKeys (l.map (·.1))).filterMap fun k =>
+    (get l k).map fun i =>
+      let es := (i.mergeSort entryLe).map showEntry
+      s!"{k}:{if es.isEmpty then "-" else ",".intercalate es}")
+
+def showTparFull (l : List (TextKey × List Rev)) : String :=
+  semis ((sortedPairs (l.map (·.1))).filterMap fun k =>
+    (get l k).map fun ps => s!"{k.1}.{k.2}:{dots ps}")
+
+def parseKind (s : String) : Option StreamKind :=
+  if s == "perrev" then some .perRevision else (parseX s).map .filtered
+
+def showErr : Err → String
+  | .noSuchRevision => "E:NoSuchRevision"
+  | .sourceIncomplete => "E:SourceIncomplete"
 
 def handle : List String → String
   | ["fetch", x, ext, fg, rev, sr, si, st, tr, ti, tt] =>
     match parseX x, parseBool ext, parseBool fg, rev.toNat?, parseRepo sr si st, parseRepo tr ti tt with
     | some x, some ext, some fg, some rev, some src, some tgt =>
       match fetch x ext fg src tgt rev with
-      | .error .noSuchRevision => "E:NoSuchRevision"
-      | .error .sourceIncomplete => "E:SourceIncomplete"
+      | .error e => showErr e
       | .ok t' => s!"ok {showIds (missing fg src tgt rev)} {showRepo t'}"
     | _, _, _, _, _, _ => "bad-op"
+  | ["fetchb", n, x, ext, fg, rev, sr, si, st, sp, tr, ti, tt, tp] =>
+    match n.toNat?, parseKind x, parseBool ext, parseBool fg, rev.toNat?, parseRepo sr si st, parseSemi parseTpar sp,
+        parseRepo tr ti tt, parseSemi parseTpar tp with
+    | some n, some x, some ext, some fg, some rev, some src, some sp, some tgt, some tp =>
+      if n = 0 then "bad-op" else
+      match fetchBH n x ext fg ⟨src, sp⟩ ⟨tgt, tp⟩ rev with
+      | .error e => showErr e
+      | .ok t' =>
+        s!"ok {showIds (missingB n fg src tgt rev)} {showRevsFull t'.repo.revs} {showInvsFull t'.repo.invs} {showTexts t'.repo.texts} {showTparFull t'.tpar}"
+    | _, _, _, _, _, _, _, _, _ => "bad-op"
+  | ["walk", n, rev, sr, th] =>
+    match n.toNat?, rev.toNat?, parseSemi parseRev sr, parseDots th with
+    | some n, some rev, some sr, some th =>
+      if n = 0 then "bad-op" else
+      showIds (missingB n false ⟨sr, [], []⟩ ⟨th.map fun k => (k, ⟨[], 0⟩), [], []⟩ rev)
+    | _, _, _, _ => "bad-op"
   | _ => "bad-op"
 
 end BreezyVerif.C03
